@@ -251,6 +251,32 @@ impl<'a> Interp<'a> {
                 let s = self.bs(s, &id);
                 sc.vals.insert(id, Val::S(s));
             }
+            "map_memo" => {
+                // memoised map: must be indistinguishable from map for a pure function
+                let f = fam::fmap(n["f"].as_str().unwrap());
+                let cap = n["cap"].as_u64().unwrap_or(4) as usize;
+                let s = sc.take_s(&ins[0]).map_memo(move |v| f(v), cap);
+                let s = self.bs(s, &id);
+                sc.vals.insert(id, Val::S(s));
+            }
+            "unique" => {
+                let s = sc.take_s(&ins[0]).unique_assoc();
+                let s = self.bs(s, &id);
+                sc.vals.insert(id, Val::S(s));
+            }
+            "rich_map" => {
+                // stateful map on a sequential stream: running aggregate
+                let (init, f) = fam::agg(n["agg"].as_str().unwrap());
+                let s = sc.take_s(&ins[0]).rich_map({
+                    let mut acc = init;
+                    move |v| {
+                        acc = f(acc, v);
+                        acc
+                    }
+                });
+                let s = self.bs(s, &id);
+                sc.vals.insert(id, Val::S(s));
+            }
             "map_st" => {
                 let f = fam::fmap_st(n["f"].as_str().unwrap());
                 let st = sc.state.clone().expect("map_st outside a loop body");
